@@ -19,7 +19,9 @@ CONSTANTS MaxId,     \* entity ids 1..MaxId
           Comps, Rels, Sized,
           MaxRegs,
           CapIncC,
-          MaxSteps   \* bound on the length of histories (breadth-first: every state is reached by a shortest history)
+          MaxSteps,  \* bound on the length of histories (breadth-first: every state is reached by a shortest history)
+          Ops,       \* names of the operations explored
+          EmitEvery  \* EmitRelPath prints about one in EmitEvery qualifying histories
 
 VARIABLES s, g, last, steps, hist, base
 vars == <<s, g, last, steps, hist, base>>
@@ -174,8 +176,12 @@ Unregister ==
         /\ last' = [op |-> "Unregister", l1 |-> "", l2ok |-> TRUE]
         /\ hist' = Append(hist, [OpBase EXCEPT !.op = "Unregister", !.reg = i - 1]) /\ base' = base
 
-Next == /\ (Create \/ Remove \/ Exchange \/ SetVal \/ SetRel \/ BatchExchange \/ BatchSetRel \/ BatchRemove
-            \/ Reset \/ Register \/ Unregister)
+(* Ops: the operations a configuration explores ("focused" covers go deeper with fewer operations). *)
+On(name) == name \in Ops
+Next == /\ (\/ (On("Create") /\ Create) \/ (On("Remove") /\ Remove) \/ (On("Exchange") /\ Exchange) \/ (On("SetVal") /\ SetVal)
+            \/ (On("SetRel") /\ SetRel) \/ (On("BatchExchange") /\ BatchExchange) \/ (On("BatchSetRel") /\ BatchSetRel)
+            \/ (On("BatchRemove") /\ BatchRemove) \/ (On("Reset") /\ Reset) \/ (On("Register") /\ Register)
+            \/ (On("Unregister") /\ Unregister))
         /\ steps' = steps + 1
 
 Spec == Init /\ [][Next]_vars
@@ -192,6 +198,12 @@ EmitPath == steps = MaxSteps + 1 => PrintT(<<"PATH", ToJson(hist)>>)
 (* Simulation mode (tlc -simulate): TLC evaluates invariants on every candidate successor, so a deep random walk would *)
 (* print hundreds of one-step extensions of the same prefix; print about one in EmitEvery of them.  Always TRUE.        *)
 EmitSome == (steps = MaxSteps + 1 /\ RandomElement(1..40) = 1) => PrintT(<<"PATH", ToJson(hist)>>)
+
+(* Focused cover: only histories that end in a state under relation stress - some entity points to a dead target, or a *)
+(* relation node has a retired table - the states in which a slip in table retirement / reuse / lookup shows.         *)
+RelStress == \/ \E h \in g.alive : g.tgt[h] # Zero /\ g.tgt[h] \notin g.alive
+             \/ \E n \in DOMAIN s.nodes : s.nodes[n].free # <<>>
+EmitRelPath == (steps = MaxSteps + 1 /\ RelStress /\ RandomElement(1..EmitEvery) = 1) => PrintT(<<"PATH", ToJson(hist)>>)
 
 Struct == StructInv(s)
 Flags == FlagInv(s)
